@@ -13,6 +13,10 @@
               at a KeyError, statuses only '.' / 'F', errors= merely handed down): true of the faithful model,
               NOT a requirement — repairing finding twin|no-error-policy will change these theorems with the model;
    [unfold]   a one-step unfolding of a definition kept as an interface lemma (no assurance beyond the correspondence K).
+   PREMISES OF THE TWIN CLAUSE (C08_single_model_linker_eq_model / ..._solve_eq_model_solve): the model's own solve_t_before /
+   solve_t_after do nothing (id_hook) — a linker never calls a submodel's hooks, so a model whose hooks write values is solved
+   differently by the two (e.g. solve_t_before setting X[t] = 5 with Y = X: direct Y = 5, through a linker Y = 0): stated
+   premise, also in ASSUMPTIONS; the model is not keyed '_'; finite regime (kept finding twin|no-error-policy).
    `_refuted` theorems are witnesses of kept findings.  Only K / the oracle (no theorem): that the scripted / recorded oracles
    are what the Python objects do; copy()/deepcopy independence (C11's subject, observed only); histories (composition of the
    per-call theorems, checked by K and by the oracle call by call). *)
@@ -494,6 +498,8 @@ Proof. exact ctor_empty. Qed.
    moved by strictly less than tol since iteration k-1 (the vectors have the same shape at every k: nothing is
    dropped by the pairwise comparison).  The period is declared solved iff some iteration qualifies; the stamped
    count is then the LEAST such k; otherwise 'F' and max_iter. *)
+(* PREMISE "no submodel id is '_'": wf num t p s = the core and every submodel have period t at position p, series of one
+   length, AND no submodel is keyed '_' (LinkerFacts2.no_us; Linker.us_id).  Without it the clause is false — next theorem. *)
 Theorem C08_solved_iff_all_moved_lt_tol :
   forall (num : Type) (sub : num -> num -> num) (absf : num -> num) (ltb : num -> num -> bool) (zero : num)
          (sev : sid -> hook num) (pre ebefore eafter post : lhook num)
@@ -529,6 +535,19 @@ Theorem C08_solved_iff_all_moved_lt_tol :
        nth_error (status (c_st (l_core (fst r)))) p = Some Failed /\
        nth_error (iters (c_st (l_core (fst r)))) p = Some (Z.of_nat N)).
 Proof. exact solved_iff_all_moved_lt_tol_M. Qed.
+
+(* [refuted without the premise: kept finding convergence|submodel-id-underscore-shadows-linker] get_check_values files the linker's own
+   check values under the key '_' in the dictionary of the submodels' check values: a selected submodel keyed '_' overwrites
+   them, and the period is declared solved while a check variable of the LINKER still moves by 1.0 >= tol (keyed 0: 'F') *)
+Theorem C08_underscore_id_shadows_linker_refuted :
+  let o := mkOpts 0 5 tolf 0 false ERaise true in
+  let r_us := f_linker_solve_t (us_ss us_id) us_hs None o 1 (us_state us_id) in
+  let r_0 := f_linker_solve_t (us_ss 0%nat) us_hs None o 1 (us_state 0%nat) in
+  snd r_us = LRet true /\ iters (c_st (l_core (fst r_us))) = [-1; 2; -1] /\
+  vals_of (c_st (l_core (fst r_us))) = [[0%float; 2%float; 0%float]] /\
+  PrimFloat.ltb (PrimFloat.abs (PrimFloat.sub 2%float 1%float)) tolf = false /\
+  snd r_0 = LRet false /\ status (c_st (l_core (fst r_0))) = [Unsolved; Failed; Unsolved] /\ iters (c_st (l_core (fst r_0))) = [-1; 5; -1].
+Proof. exact underscore_id_shadows_linker_refuted. Qed.
 
 (* the vectors compared at iteration k have the same shape: same number of containers, same number of entries each *)
 Theorem C08_check_vectors_keep_shape :
@@ -776,6 +795,7 @@ Theorem C08_single_model_linker_eq_model :
     check cd = [] ->                                         (* the linker adds no check variable of its own *)
     py_pos (length cs) t = Some p -> length ci = length cs ->
     py_pos (length ms) t = Some p -> length mi = length ms ->
+    id <> us_id ->                                           (* the model is not keyed '_' (kept finding: see C08_underscore_id_...) *)
     (* what __init__ establishes for a linker over this one model: its lags / leads are the model's, same span length *)
     lags cd = lags d -> leads cd = leads d -> length cs = length ms ->
     (min_iter o <= max_iter o -> 0 <= max_iter o) ->
@@ -814,6 +834,7 @@ Theorem C08_single_model_linker_solve_eq_model_solve :
          (isfin : num -> bool) (zero : num) (sev : sid -> hook num) (ev : hook num)
          (d : mdesc) (o : opts num) (id : sid) (cd : mdesc) (ml0 : list event) (n : nat) (sel : option (list sid)),
     check cd = [] -> lags cd = lags d -> leads cd = leads d -> offset o = 0 -> sel = None \/ sel = Some [id] ->
+    id <> us_id ->                                           (* the model is not keyed '_' *)
     forall (ps : list Z) (cv : vals num) (cs : list st) (ci : list Z) (cl : list event)
            (mv : vals num) (ms : list st) (mi : list Z) (lg : list levent),
     length cs = n -> length ci = n ->
@@ -875,6 +896,7 @@ Print Assumptions C08_single_model_linker_solve_eq_model_solve.
 Print Assumptions C08_single_model_linker_eq_model_refuted.
 Print Assumptions lx_range_regime_satisfiable.
 Print Assumptions C08_solved_iff_all_moved_lt_tol.
+Print Assumptions C08_underscore_id_shadows_linker_refuted.
 Print Assumptions C08_check_vectors_keep_shape.
 Print Assumptions C08_solve_t_other_periods_untouched.
 Print Assumptions C08_solve_other_periods_untouched.
